@@ -11,7 +11,7 @@ use xplore::*;
 
 /// exact definite integral of one source piece over [a,b], every component multiplied by 840 = lcm(1..8) so that it is a
 /// dyadic number (sums over hundreds of pieces stay cheap): (840*value, 840*majorant of the terms, 840*extra absolute tolerance for ln)
-trait Piece: Nums + Copy + HasIntegral + 'static
+trait Piece: Nums + Copy + HasIntegral + PartialEq + Send + Sync + 'static
 where
     Self::IntegralOf: Nums + ValueLevel + Translate + Copy + PartialEq,
 {
@@ -96,19 +96,28 @@ where
     // power-of-two scale of all coefficients and of k0.y (scale invariance; only for short functions to bound the cost)
     let sc = if n <= 2 { [1.0, 8.673617379884035e-19, 1099511627776.0][cx.choose(3)] } else { 1.0 };
     for i in 0..n {
-        let v = if n <= 2 { match cx.choose(3) { 0 => &VEC_A, 1 => &VEC_B, _ => &VEC_C } } else if n <= 8 { match cx.choose(2) { 0 => &VEC_B, _ => &VEC_C } } else if i % 2 == 0 { &VEC_B } else { &VEC_C };
+        // for functions of 3..8 pieces a third alternative: the same polynomial as the previous piece, bit for bit
+        let alt = if n <= 2 { cx.choose(3) } else if n <= 8 { cx.choose(if i == 0 { 2 } else { 3 }) + 1 } else if i % 5 == 3 { 3 } else { 1 + i % 2 };
+        if alt == 3 && i > 0 {
+            let prev = srcs[i - 1].clone();
+            srcs.push(prev);
+            continue;
+        }
+        let v = match alt { 0 => &VEC_A, 1 => &VEC_B, _ => &VEC_C };
         srcs.push(v[..T::N].iter().map(|c| c * (1.0 + 0.25 * (i % 7) as f64) * sc).collect());
     }
-    let lo = ends[0];
-    let hi = ends[n - 1];
+    // (ends may be +inf: the knot itself must be finite, so infinite ends are replaced by finite stand-ins when placing k0)
+    let lo = if ends[0].is_finite() { ends[0] } else { 1.0 };
+    let hi = ends.iter().cloned().filter(|e| e.is_finite()).fold(lo, f64::max);
+    let fin = |e: f64| if e.is_finite() { e } else { hi + 0.5 };
     // k0.x: inside the first piece, exactly its end, beyond it, exactly the 2nd / 3rd end, exactly the last end, beyond the last end
     let kmode = ks / 4;
     let kx = match kmode {
         0 => if T::LOG { lo * 0.5 } else { lo - 0.75 },
         1 => lo,
-        2 => if n > 1 && ends[1] > lo { lo * 0.5 + ends[1] * 0.5 } else { lo + 0.25 },
-        3 => ends[1.min(n - 1)],
-        4 => ends[2.min(n - 1)],
+        2 => if n > 1 && fin(ends[1]) > lo { lo * 0.5 + fin(ends[1]) * 0.5 } else { lo + 0.25 },
+        3 => fin(ends[1.min(n - 1)]),
+        4 => fin(ends[2.min(n - 1)]),
         5 => hi,
         _ => hi + 1.5,
     };
@@ -263,6 +272,9 @@ where
         // continuity at interior breakpoints (each side with that piece's own real evaluate)
         for i in 0..n - 1 {
             let e = ends[i];
+            if !e.is_finite() {
+                continue; // nothing lies beyond an infinite breakpoint
+            }
             let (l, rr) = (res.segments[i].poly, res.segments[i + 1].poly);
             let (yl, yr) = (l.evaluate(e), rr.evaluate(e));
             let tol = 2f64.powi(-40) * (l.major(e) + rr.major(e));
@@ -287,7 +299,7 @@ where
         return Err(Fail::new("indefinite(): the first piece is not the first source piece's indefinite integral with zero additive constant", detail(json!({"first_piece": fjs(&ind.segments[0].poly.nums())}))));
     }
     // the true integral: only when k0.x lies in the first piece's domain
-    if kx < lo {
+    if kx < ends[0] {
         let alpha: Vec<f64> = order_alphabet(ends).into_iter().filter(|t| t.is_finite() && t.abs() < 1e6 && (!T::LOG || *t > 1e-6)).collect();
         // prefix[j] = 840*(k0.y + integral from k0.x to the left edge of piece j), with majorant and ln allowance
         let mut prefix: Vec<(Dy, Dy, Dy)> = Vec::with_capacity(n);
@@ -295,6 +307,13 @@ where
         let mut from = kx;
         for i in 0..n {
             prefix.push(acc.clone());
+            if !ends[i].is_finite() {
+                // pieces after an infinite breakpoint are never in force for a finite t: pad and stop
+                while prefix.len() < n {
+                    prefix.push(acc.clone());
+                }
+                break;
+            }
             let (v, mm, ex) = T::def_int(&srcs[i], from, ends[i]);
             acc = (acc.0.add(&v), acc.1.add(&mm).add(&dy(int.segments[i].poly.nums()[0]).abs().mul_i(840)), acc.2.add(&ex));
             from = ends[i];
@@ -324,8 +343,15 @@ where
 
 pub fn check(thorough: bool, _seed: u64) -> Check {
     let maxlen = if thorough { 5 } else { 4 };
-    let poly_shapes = Arc::new(shapes(&[-1.0, 0.5, 2.0, 3.0], maxlen));
-    let log_shapes = Arc::new(shapes(&[0.5, 1.0, 2.0, 4.0], maxlen));
+    let mut ps = shapes(&[-1.0, 0.5, 2.0, 3.0], maxlen);
+    let mut ls = shapes(&[0.5, 1.0, 2.0, 4.0], maxlen);
+    // the last piece's end is conventionally +inf: functions on the whole line and right-open last pieces
+    for extra in [vec![f64::INFINITY], vec![2.0, f64::INFINITY], vec![0.5, 2.0, f64::INFINITY], vec![0.5, 0.5, 2.0, f64::INFINITY]] {
+        ps.push(extra.clone());
+        ls.push(extra);
+    }
+    let poly_shapes = Arc::new(ps);
+    let log_shapes = Arc::new(ls);
     let (np, nl) = (poly_shapes.len(), log_shapes.len());
     let ps = poly_shapes.clone();
     let poly = Phase {
@@ -348,7 +374,7 @@ pub fn check(thorough: bool, _seed: u64) -> Check {
             }
         }),
         classes: vec![("k0.x_inside_first_piece", true), ("k0.x_at_first_end", true), ("k0.x_beyond_first_end", true), ("k0.x_at_second_end", true), ("k0.x_at_third_end", true), ("k0.x_at_last_end", true), ("k0.x_beyond_last_end", true), ("duplicate_breakpoints", true)],
-        bounds: json!({"piece_types": "Poly0..Poly7", "shapes": format!("end lists of length 1..{maxlen} over {{-1,0.5,2,3}}"), "per piece": "coefficients from 3 vectors (all ones, alternating fractions, lane identifier), scaled per piece; functions of 1-2 pieces also with everything scaled by 2^-60 and 2^40",
+        bounds: json!({"piece_types": "Poly0..Poly7", "shapes": format!("end lists of length 1..{maxlen} over {{-1,0.5,2,3}}"), "per piece": "coefficients from 3 vectors (all ones, alternating fractions, lane identifier), scaled per piece, or (3+ pieces) the previous piece's polynomial repeated bit for bit; functions of 1-2 pieces also with everything scaled by 2^-60 and 2^40", "open_ended_shapes": "[+inf], [2,+inf], [0.5,2,+inf], [0.5,0.5,2,+inf] (an infinite breakpoint only as the last one: pieces behind an interior infinite breakpoint are unreachable and their anchoring is inf - inf)",
             "k0": "x in {inside first piece, = first end, beyond it, = second end, = third end, = last end, beyond last end} x y in {0, 2.5, -1e3, F0(k0.x)(1+3e-10)}", "evaluation points": "finite part of A(ends)"}),
     };
     let ls = log_shapes.clone();
